@@ -165,6 +165,8 @@ type pipeDID struct {
 	createRe *document.ResolutionResult
 	longForm string
 	created  bool
+	createOp *BuiltOp  // the create request (it may be submitted again later)
+	again    []*ref.Op // descriptors of repeated submissions of the create request
 	// results already handed to a client, with their serialization at that moment: they never change afterwards
 	handed []handedResult
 }
@@ -490,9 +492,14 @@ func runPipeline(c *hx.Ctx, r *hx.Rng, ri int, twoVers, useUnpub, concurrent boo
 			amu.Lock()
 			dids[di] = pd
 			amu.Unlock()
+			pd.createOp = b
 			kind = "create"
 		case pd.d.Deact:
 			return true
+		case !concurrent && pd.createOp != nil && len(pd.accepted) >= 2 && len(pd.again) < 2 && rr.Chance(1, 10):
+			// the client (or anyone else) submits the DID's create request once more: a later create changes nothing
+			b, kind = pd.createOp, "create-again"
+			c.Count("create_requests_submitted_again")
 		default:
 			pd.d.MaxDelta = maxDelta
 			// anchoring windows relative to the ledger clock (only without unpublished store, DESIGN 2.3): the operation may be
@@ -523,6 +530,12 @@ func runPipeline(c *hx.Ctx, r *hx.Rng, ri int, twoVers, useUnpub, concurrent boo
 					// including what its earlier patches would have done
 					ups = append(ups, patchJSON(map[string]interface{}{"op": "remove", "path": "/memberThatDoesNotExist"}))
 					c.Count("updates_whose_last_patch_fails")
+				} else if rr.Chance(1, 6) {
+					// a replace patch after patches that put an alias into the document: the document is reset to exactly the
+					// keys and services the replace patch names
+					ups = append(ups, map[string]interface{}{"action": "add-also-known-as", "uris": []interface{}{"https://alias.example/" + genID(rr, "")}},
+						patchReplace([]interface{}{genKeyEntry(rr, "rk")}, []interface{}{genService(rr, "rs")}))
+					c.Count("updates_with_a_replace_patch_after_other_patches")
 				}
 				b, err = pd.d.Update(ups, from, until)
 				kind = "update"
@@ -597,6 +610,9 @@ func runPipeline(c *hx.Ctx, r *hx.Rng, ri int, twoVers, useUnpub, concurrent boo
 				fail("a valid create was refused at intake: "+serr.Error(), map[string]interface{}{"request": string(b.Req)})
 				return false
 			}
+			if kind == "create-again" {
+				return true // whether a node takes a repeated create is its own business
+			}
 			// non-create refused (e.g. DID not yet resolvable without unpublished store): undo the client-side key rotation
 			pd.d.CurU, pd.d.CurR, pd.d.Deact = b.PrevU, b.PrevR, false
 			return true
@@ -608,7 +624,11 @@ func runPipeline(c *hx.Ctx, r *hx.Rng, ri int, twoVers, useUnpub, concurrent boo
 		desc.Time, desc.Ref = 1<<40+uint64(len(pd.accepted)), "" // unpublished until anchored
 		amu.Lock()
 		pd.accepted = append(pd.accepted, &desc)
-		pd.byReq[canonReq(b.Req)] = &desc
+		if kind == "create-again" {
+			pd.again = append(pd.again, &desc)
+		} else {
+			pd.byReq[canonReq(b.Req)] = &desc
+		}
 		amu.Unlock()
 		if kind == "create" {
 			pd.createRe = res
@@ -641,6 +661,18 @@ func runPipeline(c *hx.Ctx, r *hx.Rng, ri int, twoVers, useUnpub, concurrent boo
 				for _, pd := range dids {
 					if pd == nil || pd.d.Suffix != o.UniqueSuffix {
 						continue
+					}
+					if d := pd.byReq[canonReq(o.OperationRequest)]; d != nil && d.Ref != "" && d.Ref != t.CanonicalReference {
+						// the same request anchored again in another transaction: a repeated submission
+						for _, a := range pd.again {
+							if a.Ref == t.CanonicalReference {
+								break
+							}
+							if a.Ref == "" {
+								a.Time, a.Number, a.Ref = t.TransactionTime, t.TransactionNumber, t.CanonicalReference
+								break
+							}
+						}
 					}
 					if d := pd.byReq[canonReq(o.OperationRequest)]; d != nil && d.Ref == "" {
 						d.Time, d.Number, d.Ref = t.TransactionTime, t.TransactionNumber, t.CanonicalReference
